@@ -5,6 +5,8 @@ import ScVerif.C09.Subs
 import ScVerif.C09.Include
 import ScVerif.C09.Seed
 import ScVerif.C09.Mixed
+import ScVerif.C09.Bus
+import ScVerif.C09.Writers
 /-! Driver handler for C09.
 
 * `merge <a> <b>`                 → `mergeChanges a b` (`drop` when `send == false`)
@@ -38,6 +40,15 @@ import ScVerif.C09.Mixed
                                   `<value|none>[+t]` (`+t`: the waiting write completed as a result), each followed by
                                   `@<looks0>/<looks1>/…#<p>` (how many events each forwarder has taken so far, and the listener the
                                   waiting send is at, `-` = none: used for waiting only)
+* `busrun <move>*`                `minibus.Bus` with several `Send`s in progress (`busStep`, Bus.lean), senders scheduled greedily
+                                  (a sender skips cancelled listeners at once, parks at the first live one behind the senders
+                                  already parked there, returns past its last listener): moves `l` (Listen) / `c<k>` (cancel
+                                  listener k; `!race` if a sender is parked at it) / `s` (a new sender starts) / `r<k>` (listener
+                                  k's channel is received from once) → per move `ok` / `e<n>:<pos>` / `<n>:<pos>` | `none` with
+                                  `<pos>` = `ret` | `p<k>#<visited+1>`, then `|` and per listener the events it was handed
+* `wrun <id=val,…|-> <move>*`     several writers on one collection (`wstep`, Writers.lean): moves `u:<id>:<val>` (an Update / Add
+                                  commits; its event is pending) / `p<n>` (the n-th pending event is published) / `x:<id>` (Delete:
+                                  commit and publication together) → the events in the order the bus gets them
 * `set <deadline> <listener>*`    `Value.set` after its commit: `Bus.Send` as above, then the error mapping
                                   (`setReturnsError`) → `error@<t>` or `ok@<t>`
 -/
@@ -302,6 +313,103 @@ def xrunDrv (seedN : Nat) : XDrv → List String → List String → Option (Lis
       xrunDrv seedN ⟨c', st.next⟩ ms ((o ++ "@" ++ xlooks seedN c') :: acc)
     | _ => none
 
+
+/-! #### the bus with several senders (Bus.lean), senders scheduled greedily -/
+
+structure BusDrv where
+  c : BusCfg
+  stamps : List (Nat × Nat)   -- event ↦ when its sender parked where it stands (FIFO of a channel's senders)
+  vis : List (Nat × Nat)      -- event ↦ listeners its sender has dealt with
+  clock : Nat
+
+def lookupD (l : List (Nat × Nat)) (e : Nat) : Nat := ((l.find? (fun p => p.1 == e)).map (·.2)).getD 0
+
+def setKV (l : List (Nat × Nat)) (e v : Nat) : List (Nat × Nat) := (e, v) :: l.filter (fun p => !(p.1 == e))
+
+def busSendOf (c : BusCfg) (e : Nat) : Option BSend := c.sends.find? (fun s => s.ev == e)
+
+/-- the sender of `e` goes on while nothing holds it: skips cancelled listeners, returns past the last one -/
+def busGreedy : Nat → BusDrv → Nat → BusDrv
+  | 0, st, _ => st
+  | fuel + 1, st, e =>
+    match busSendOf st.c e with
+    | none => st
+    | some s =>
+      match s.rest with
+      | [] => { st with c := busStep st.c (.finish e) }
+      | k :: _ =>
+        if st.c.cancelled.contains k then
+          busGreedy fuel { st with c := busStep st.c (.visit e), vis := setKV st.vis e (lookupD st.vis e + 1) } e
+        else st
+
+def busPos (st : BusDrv) (e : Nat) : String :=
+  match busSendOf st.c e with
+  | none => "ret"
+  | some s =>
+    match s.rest with
+    | [] => "ret"
+    | k :: _ => "p" ++ toString k ++ "#" ++ toString (lookupD st.vis e + 1)
+
+def busPark (st : BusDrv) (e : Nat) : BusDrv :=
+  { st with stamps := setKV st.stamps e st.clock, clock := st.clock + 1 }
+
+/-- the senders parked at listener `k`, the one that arrived first in front -/
+def busParkedAt (st : BusDrv) (k : Nat) : Option Nat :=
+  let ps := st.c.sends.filter (fun s => s.rest.head? == some k)
+  ps.foldl (fun best s =>
+    match best with
+    | none => some s.ev
+    | some b => if lookupD st.stamps s.ev < lookupD st.stamps b then some s.ev else some b) none
+
+def busrunDrv : BusDrv → List String → List String → Option (List String × BusDrv)
+  | st, [], acc => some (acc.reverse, st)
+  | st, m :: ms, acc =>
+    match m.toList with
+    | ['l'] => busrunDrv { st with c := busStep st.c .listen } ms ("ok" :: acc)
+    | ['s'] =>
+      let e := st.c.nextE
+      let st := busGreedy (st.c.reg.length + 2) { st with c := busStep st.c .send } e
+      let st := busPark st e
+      busrunDrv st ms (("e" ++ toString e ++ ":" ++ busPos st e) :: acc)
+    | 'c' :: ds => do
+      let k ← parseNat? (String.ofList ds)
+      if (busParkedAt st k).isSome then none
+      else busrunDrv { st with c := busStep st.c (.cancel k) } ms ("ok" :: acc)
+    | 'r' :: ds => do
+      let k ← parseNat? (String.ofList ds)
+      match busParkedAt st k with
+      | none => busrunDrv st ms ("none" :: acc)
+      | some e =>
+        let st := { st with c := busStep st.c (.visit e), vis := setKV st.vis e (lookupD st.vis e + 1) }
+        let st := busGreedy (st.c.nextL + 2) st e
+        let st := busPark st e
+        busrunDrv st ms ((toString e ++ ":" ++ busPos st e) :: acc)
+    | _ => none
+
+def showHanded (c : BusCfg) : String :=
+  ";".intercalate ((List.range c.nextL).map (fun k =>
+    let h := c.handedTo k
+    if h.isEmpty then "-" else ",".intercalate (h.map toString)))
+
+
+/-! #### several writers on one collection (Writers.lean) -/
+
+def parseWStart? (s : String) : Option (View String String) :=
+  if s = "-" then some View.empty
+  else (s.splitOn ",").foldlM (fun (v : View String String) kv =>
+    match kv.splitOn "=" with
+    | [k, x] => if k = "" || x = "" then none else some (v.set k (some x))
+    | _ => none) View.empty
+
+def parseWMove? (s : String) : Option (WMove String String) :=
+  match s.splitOn ":" with
+  | ["u", i, v] => if i = "" || v = "" then none else some (.update i v)
+  | ["x", i] => if i = "" then none else some (.delete i)
+  | [p] => match p.toList with
+    | 'p' :: ds => (parseNat? (String.ofList ds)).map .publish
+    | _ => none
+  | _ => none
+
 def parseXSub? (seed : Option String) : String → Option (MSub String)
   | "L" => some (.lossy (VCfg.subscribed id seed))
   | "B" => some (.bp (match seed with | some s => ⟨some s, [], [s]⟩ | none => BCfg.init))
@@ -314,6 +422,14 @@ def handle? (toks : List String) : Option String :=
     let subs ← (kinds.splitOn ",").mapM (parseXSub? sd)
     let r ← xrunDrv (if sd.isSome then 1 else 0) ⟨⟨subs, none, []⟩, 1⟩ ms []
     pure (" ".intercalate r)
+  | "wrun" :: start :: ms => do
+    let v ← parseWStart? start
+    let ms ← ms.mapM parseWMove?
+    pure (showChanges ((wrun (WCfg.init v) ms).published.map (·.2)))
+  | "busrun" :: ms =>
+    match busrunDrv ⟨BusCfg.init, [], [], 0⟩ ms [] with
+    | some r => some (" ".intercalate r.1 ++ "|" ++ showHanded r.2.c)
+    | none => some "!race"
   | "brun" :: seed :: ms => do
     let c0 : BCfg String := if seed = "-" then BCfg.init else ⟨some seed, [], [seed]⟩
     let r ← brunDrv ⟨c0, none, 1⟩ ms []
